@@ -18,6 +18,9 @@
   it could be waiting for is outstanding) and return (normally or early — a failing non-null sibling
   abandons pending promises) at any point. Promise ids are allocated in creation order.
 
+  Several executions may follow each other on one apiRequest (`start`: graphqlws.go runs every event
+  of a subscription with the same apiRequest); `execStart` separates their promises.
+
   `Cfg.fixed = false` is api.go before repo-patches/C15/01-fix (a Go task sends unconditionally, the
   return does nothing); `fixed = true` is the patched code the check runs against.
   Core Lean only.
@@ -49,6 +52,7 @@ structure Batch where
 /-- One invocation of a batch function (ghost log). -/
 structure Call where
   wave : Nat
+  lo : Nat        -- ghost: `execStart` of the execution whose idle handler made the call
   key : Nat
   items : List Nat
   dests : List Nat
@@ -84,6 +88,10 @@ structure St where
   registered : List (Nat × Nat × Nat) := []  -- (batch key, item, promise) in registration order
   finished : List (Nat × Res) := []        -- what each task body returned
   progress : Bool := false                 -- this idle-handler invocation flushed or delivered a non-chained promise
+  execStart : Nat := 0                     -- `next` when the current execution started: promises below it belong
+                                           -- to earlier executions on the same apiRequest (their `done` is closed)
+  execWave : Nat := 0                      -- ghost: `wave` when the current execution started
+  exec : Nat := 0                          -- ghost: number of executions started before the current one
   snap : List (Nat × Res) := []            -- `delivered` as it was when the idle handler was last entered
   regWave : List (Nat × Nat × Nat) := []   -- (promise, batch key, wave counter at registration)
   deriving Repr
@@ -100,6 +108,7 @@ inductive Label where
   | idleRet
   | ret
   | release (t : Nat)
+  | start
   deriving DecidableEq, Repr
 
 def lookup (dl : List (Nat × Res)) (p : Nat) : Option Res :=
@@ -133,18 +142,18 @@ def resultsFor (rs : List (Nat × List Res)) (k : Nat) : List Res :=
   | none => []
 
 /-- `for i, result := range b.resolver(b.items) { b.dests[i] <- result }` -/
-def flushOne (wave : Nat) (rs : List (Nat × List Res)) (s : St) (b : Batch) : St :=
+def flushOne (wave lo : Nat) (rs : List (Nat × List Res)) (s : St) (b : Batch) : St :=
   let res := resultsFor rs b.key
   let s1 := s.deliverAll (b.dests.zip res)
-  { s1 with calls := ⟨wave, b.key, b.items, b.dests, res⟩ :: s1.calls,
+  { s1 with calls := ⟨wave, lo, b.key, b.items, b.dests, res⟩ :: s1.calls,
             crashed := s1.crashed || decide (b.dests.length < res.length),
             orphaned := b.dests.drop res.length ++ s1.orphaned }
 
 /-- The flush phase: every pending batch function is called once (the goroutines only touch their
     own batch's promises, so their interleaving does not matter; the handler waits for all). -/
-def flushAll (wave : Nat) (rs : List (Nat × List Res)) (s : St) : List Batch → St
+def flushAll (wave lo : Nat) (rs : List (Nat × List Res)) (s : St) : List Batch → St
   | [] => s
-  | b :: bs => flushAll wave rs (flushOne wave rs s b) bs
+  | b :: bs => flushAll wave lo rs (flushOne wave lo rs s b) bs
 
 /-- Is `r` an admissible return value of a chain/join body whose inputs gave `e`? An input error is
     returned as it is; otherwise `f` decides. -/
@@ -195,7 +204,7 @@ def step (c : Cfg) (s : St) : Label → Option St
                   registered := s.registered ++ [(k, item, p)],
                   regWave := (p, k, s.wave) :: s.regWave }
   | .chain t ps =>
-    if s.crashed || s.phase != .exec || t != s.next || !ps.all (· < s.next) then none else
+    if s.crashed || s.phase != .exec || t != s.next || !ps.all (fun p => decide (s.execStart ≤ p) && decide (p < s.next)) then none else
     some { s with next := s.next + 1, running := ⟨t, ps⟩ :: s.running, chained := ps ++ s.chained }
   | .fin t r =>
     if s.crashed then none else
@@ -210,12 +219,12 @@ def step (c : Cfg) (s : St) : Label → Option St
                       finished := (t, r) :: s.finished }
   | .idle =>
     if s.crashed || s.phase != .exec then none else
-    if (List.range s.next).any (fun p => !isDelivered s p && !s.chained.contains p) then
+    if (List.range s.next).any (fun p => decide (s.execStart ≤ p) && !isDelivered s p && !s.chained.contains p) then
       some { s with phase := .top, wave := s.wave + 1, progress := false, snap := s.delivered }
     else none
   | .flush rs =>
     if s.crashed || s.phase != .top || s.batches.isEmpty then none else
-    let s1 := flushAll s.wave rs s s.batches
+    let s1 := flushAll s.wave s.execStart rs s s.batches
     some { s1 with batches := [], phase := .drain, progress := true }
   | .recvBlock t =>
     if s.crashed || s.destFull || s.phase != .top || !s.batches.isEmpty then none else
@@ -235,10 +244,15 @@ def step (c : Cfg) (s : St) : Label → Option St
     if s.crashed || s.phase != .exec then none else
     if c.fixed then some { finishBatches s with phase := .returned } else some { s with phase := .returned }
   | .release t =>
-    if s.crashed || !c.fixed || s.phase != .returned then none else
+    -- the task's own `done` is closed: its execution has returned (an earlier one, or the current one)
+    if s.crashed || !c.fixed || !(decide (t < s.execStart) || s.phase == .returned) then none else
     match lookup s.blocked t with
     | none => none
     | some r => some (took s t r)
+  | .start =>
+    -- graphqlws.go: the next subscription event is executed on the same apiRequest
+    if s.crashed || s.phase != .returned then none else
+    some { s with phase := .exec, execStart := s.next, execWave := s.wave, exec := s.exec + 1, progress := false }
 
 /-- Run a label sequence; `none` as soon as a label is not enabled. Returns the index of the
     first rejected label on failure. -/
